@@ -133,6 +133,9 @@ func (p *Prog) trackedName(cc *ssa.CallCommon) string {
 		return ""
 	}
 	k := dynKey(cc)
+	if strings.HasPrefix(k, "param:") && p.CS.Tracked[k[len("param:"):]] {
+		return k[len("param:"):]
+	}
 	if strings.HasPrefix(k, "var:") {
 		short := k[strings.LastIndex(k, ".")+1:]
 		if p.CS.Tracked[short] {
@@ -445,6 +448,9 @@ func (p *Prog) computeEffects() {
 // globalProtected: a global with a declared invariant that no function other
 // than init stores to keeps its value across calls and loops.
 func (p *Prog) globalProtected(g *ssa.Global) bool {
+	if p.hasConfigInv(g) {
+		return true // configuration: assumed not to change while a logging call runs
+	}
 	if !p.hasGlobalInv(g) {
 		return false
 	}
@@ -456,9 +462,18 @@ func (p *Prog) globalProtected(g *ssa.Global) bool {
 	return true
 }
 
+func (p *Prog) hasConfigInv(g *ssa.Global) bool {
+	for _, gi := range p.CS.Globals {
+		if gi.Assumed && gi.Pkg == g.Pkg.Pkg.Path() && mentionsIdent(gi.E, g.Name()) {
+			return true
+		}
+	}
+	return false
+}
+
 func (p *Prog) hasGlobalInv(g *ssa.Global) bool {
 	for _, gi := range p.CS.Globals {
-		if gi.Pkg == g.Pkg.Pkg.Path() && mentionsIdent(gi.E, g.Name()) {
+		if !gi.Assumed && gi.Pkg == g.Pkg.Pkg.Path() && mentionsIdent(gi.E, g.Name()) {
 			return true
 		}
 	}
